@@ -89,6 +89,7 @@ func runC07(c *Ctx, phase string) {
 	c.Floor("lists_with_9plus_entries", 1000)
 	c.Floor("lists_with_33plus_entries", 200)
 	c.Floor("long_list_cases", 300)
+	c.Floor("population_cases", int64(c.Pick(24, 400)))
 	for _, k := range []string{"permute", "reverse-sorted", "duplicate", "respell", "extend"} {
 		c.Floor("variant_"+k, int64(n/2))
 	}
@@ -122,6 +123,28 @@ func runC07(c *Ctx, phase string) {
 		mk("extend", ext2)
 		c.Inc("long_list_cases")
 		c.Max("longest_list", int64(len(base)))
+	}
+	// populations: 5000 distinct random references; the expression needs a random half of them
+	for i := 0; i < c.Pick(24, 400); i++ {
+		if !c.Mine(i) {
+			continue
+		}
+		pop := genPopulation(c, "C07", i, 5000)
+		r := gen.NewRand(c.Seed, 0xC07D, uint64(i))
+		var need []string
+		for _, p := range pop {
+			if r.Chance(1, 2) {
+				need = append(need, p)
+			}
+		}
+		e := ev.QS(strings.Join(need, " AND "))
+		rev := make([]string, len(pop))
+		for j := range pop {
+			rev[j] = pop[len(pop)-1-j]
+		}
+		judgeC07(c, C07Case{Expr: e, Base: ev.QSs(pop), Variant: ev.QSs(rev), Kind: "permute"})
+		c.Distinct(gen.HashStr("pop", string(e)))
+		c.Inc("population_cases")
 	}
 	for i := 0; i < n; i++ {
 		if !c.Mine(i) {
